@@ -94,20 +94,44 @@ def _cblist(ctx, cfg):
             if n.startswith("on_"):
                 return lambda *a: log.append((object.__getattribute__(self, "tag"), n, a))
             return object.__getattribute__(self, n)
-    for ncb in (0, 1, 2, 3):
-        cbs = [Rec(i) for i in range(ncb)]
-        cl = CallbackList(cbs)
-        for ev, args in (("on_train_start", ("S",)), ("on_epoch_start", ("S", 4)), ("on_batch_start", ("S", 4, 2)),
-                         ("on_batch_end", ("S", 4, 2)), ("on_epoch_end", ("S", 4)), ("on_train_end", ("S",))):
-            del log[:]
-            r = getattr(cl, ev)(*args)
-            ctx.holds("CallbackList.%s dispatches once to every callback in list order with the same arguments[n=%d]" % (ev, ncb),
-                      r is None and log == [(i, ev, args) for i in range(ncb)], str(log)[:200])
+    class St:
+        """training state as the dispatch loop may see it: the stop flag readable, nothing writable"""
+
+        def __init__(self, stop):
+            object.__setattr__(self, "stop_training", stop)
+            object.__setattr__(self, "writes", [])
+
+        def __setattr__(self, k, v):
+            self.writes.append(k)
+    for stop in (False, True):
+        for ncb in (0, 1, 2, 3):
+            cbs = [Rec(i) for i in range(ncb)]
+            cl = CallbackList(cbs)
+            S = St(stop)
+            for ev, args in (("on_train_start", (S,)), ("on_epoch_start", (S, 4)), ("on_batch_start", (S, 4, 2)),
+                             ("on_batch_end", (S, 4, 2)), ("on_epoch_end", (S, 4)), ("on_train_end", (S,))):
+                del log[:]
+                r = getattr(cl, ev)(*args)
+                ctx.holds("CallbackList.%s dispatches once to every callback in list order with the same arguments, stop requested or not[n=%d stop=%s]" % (ev, ncb, stop),
+                          r is None and log == [(i, ev, args) for i in range(ncb)] and S.writes == [], str(log)[:200])
+    # a stop requested by an earlier callback during the dispatch must not hide the event from the later ones
+    for ev, args in (("on_batch_end", (4, 2)), ("on_epoch_end", (4,)), ("on_epoch_start", (4,)), ("on_batch_start", (4, 2))):
+        S = St(False)
+        seen = []
+
+        class Stopper(CallbackBase):
+            pass
+        stp = Stopper()
+        setattr(stp, ev, lambda st_, *a: object.__setattr__(st_, "stop_training", True))
+        later = Rec("later")
+        del log[:]
+        getattr(CallbackList([stp, later]), ev)(S, *args)
+        ctx.holds("CallbackList.%s still reaches the callbacks listed after one that requested a stop" % ev, log == [("later", ev, (S,) + args)], str(log)[:200])
     cl = CallbackList([Rec(0)])
     cl.append(Rec(1))
     cl.insert(0, Rec(2))
     del log[:]
-    cl.on_epoch_end("S", 1)
+    cl.on_epoch_end(St(False), 1)
     ctx.holds("CallbackList append / insert keep list order", [x[0] for x in log] == [2, 0, 1])
     for bad in ("append", "insert", "setitem"):
         try:
